@@ -128,7 +128,7 @@ def readback_problem(image):
             else:
                 rd.read_volume()
             rd.read_variant_headers()
-    r = env.run_sim(fn, fs, core.SeqChooser(), step_cap=10 ** 7)
+    r = env.run_sim(fn, fs, core.SeqChooser(), step_cap=10 ** 6)
     readers.clear_caches()
     if r.status != 'ok':
         return f'the library\'s reader cannot read the file back: {r.status} {type(r.exc).__name__}: {str(r.exc)[:100]}'
